@@ -31,7 +31,7 @@ class C08(Spec):
                    'bounds / line searches under scaling belong to C10']
 
     def gen(self, tier, rng):
-        n = 50 if tier == 'quick' else 1000
+        n = 70 if tier == 'quick' else 1000
         nvar = 2 if tier == 'quick' else 6
         cases = []
         for k in range(n):
